@@ -4,7 +4,7 @@ use proptest::strategy::Strategy;
 use proptest::test_runner::{Config, RngAlgorithm, TestCaseError, TestError, TestRng, TestRunner};
 use serde::{de::DeserializeOwned, Deserialize, Serialize};
 use serde_json::{json, Value};
-use std::collections::{BTreeMap, HashSet};
+use std::collections::{BTreeMap, HashMap, HashSet};
 use std::path::PathBuf;
 use std::sync::atomic::{AtomicBool, Ordering};
 use std::sync::Mutex;
@@ -328,6 +328,9 @@ impl Session {
                     let mut runner = TestRunner::new_with_rng(cfg, rng_for(this.seed, phase, w));
                     let agg = std::cell::RefCell::new(Agg::default());
                     let failed = std::cell::Cell::new(false);
+                    // violations seen per failing value: an engine whose thread schedule is not part of the
+                    // case (PAR) may not fail again when the minimal value is re-run afterwards
+                    let seen_fail: std::cell::RefCell<HashMap<String, Vec<Violation>>> = std::cell::RefCell::new(HashMap::new());
                     let res = runner.run(&strat(), |v| {
                         if !failed.get() && stop.load(Ordering::Relaxed) {
                             return Ok(());
@@ -345,6 +348,7 @@ impl Session {
                         } else {
                             failed.set(true);
                             stop.store(true, Ordering::Relaxed);
+                            seen_fail.borrow_mut().insert(serde_json::to_string(&v).unwrap_or_default(), new.clone());
                             Err(TestCaseError::fail(format!("{}: {}", new[0].kind, new[0].detail)))
                         }
                     });
@@ -353,7 +357,12 @@ impl Session {
                         Err(TestError::Fail(_, v)) => {
                             let rep = case_fn(&v);
                             let mut dummy = Agg::default();
-                            let new = this.triage(&rep, &mut dummy, false);
+                            let mut new = this.triage(&rep, &mut dummy, false);
+                            if new.is_empty() {
+                                if let Some(old) = seen_fail.borrow().get(&serde_json::to_string(&v).unwrap_or_default()) {
+                                    new = old.clone();
+                                }
+                            }
                             Some((v, new))
                         }
                         Err(TestError::Abort(r)) => {
